@@ -590,7 +590,7 @@ pub fn run(ctx: &Ctx) -> i32 {
     }
     run_cases(ctx, &structured, &stats, true);
     let t2 = ctx.elapsed();
-    let nmut = ctx.tier.pick(20_000u64, 1_000_000u64);
+    let nmut = ctx.tier.pick(20_000u64, 5_000_000u64);
     let mutated = mutation_cases(ctx, nmut);
     for c in mutated.iter().take(3) {
         ctx.sample(json!({"family": c.family, "construct": c.construct, "text": fw::clip(&String::from_utf8_lossy(&c.text), 200)}));
